@@ -19,6 +19,12 @@ def programs(tier, rnd: random.Random):
         "{ int32_t a = RsV; { a = a + 1; { a = a * 2; } } ; {} RdV = a; }",
         "{ RdV = RsV; mem_store_u32(EA, RtV); RdV = mem_load_u32(EA); }",
     ]
+    # for loops whose STEP is an assignment (not i++): condition, body, step - in that order, every iteration
+    for step in ("i += 1", "i = i + 1", "i += 2", "i = i + RtV", "i -= 1"):
+        init, cond = ("i = 8", "i > 0") if step == "i -= 1" else ("i = 0", "i < 4")
+        progs += [f"{{ RdV = RsV; for ({init}; {cond}; {step}) {{ RdV = RdV + i; }} }}",
+                  f"{{ RdV = 0; for ({init}; {cond}; {step}) {{ if (i == 2) {{ RdV = RdV + 10; }} else {{ RdV = RdV + 1; }} }} }}",
+                  f"{{ RdV = 0; for ({init}; {cond}; {step}) {{ for (j = 0; j < i; j = j + 1) {{ RdV = RdV + 1; }} }} }}"]
     # controlling expressions that are conversions: the condition is the CONVERTED value (a narrowing cast can make a non-zero value zero)
     for ty, sh in (("uint8_t", 8), ("int8_t", 8), ("uint16_t", 16), ("int16_t", 16), ("uint32_t", 32), ("int32_t", 32)):
         src = "RssV" if sh == 32 else "RsV"
